@@ -12,7 +12,7 @@ sym_num sym_get sym_iter sym_by_name sym_by_name_held cu_iter cu_at cu_containin
 die_at_info die_children die_siblings die_parent die_parent_chain die_ref lineprog_seq cfi_entries
 cfi_decoded_seq'''.split())
 
-LUT_KINDS = ['cu_containing', 'cu_containing_seq', 'cu_at', 'cu_iter', 'die_at_info', 'aranges_lookup', 'aranges_entries',
+LUT_KINDS = ['cu_containing', 'cu_containing_seq', 'cu_at', 'cu_at_stale', 'cu_iter', 'die_at_info', 'aranges_lookup', 'aranges_entries',
              'pub_items', 'pub_get', 'pub_headers', 'lut_die', 'die_top']
 
 
@@ -90,7 +90,7 @@ class Gen:
             k.append('dwarf_link')
         d = self.dw
         if d and d.get('unit_meta'):
-            k += ['cu_iter', 'cu_at', 'cu_containing', 'cu_containing_seq', 'die_top', 'die_iter', 'die_at', 'die_at_info', 'die_children',
+            k += ['cu_iter', 'cu_at', 'cu_at_stale', 'cu_containing', 'cu_containing_seq', 'die_top', 'die_iter', 'die_at', 'die_at_info', 'die_children',
                   'die_siblings', 'die_parent', 'die_parent_chain', 'die_path', 'abbrev', 'lineprog_seq', 'dwarf_again']
             if any(m['refs'] for m in d['unit_meta']):
                 k.append('die_ref')
@@ -153,6 +153,10 @@ class Gen:
             k.append('session:sec')
         if self.gm:
             k.append('session:seg')
+        if d and d.get('unit_meta'):
+            k.append('lineprog_after')
+        if d and d.get('lp_define_file'):
+            k = [x for x in k if x not in ('lineprog_seq', 'session:lineprog')]
         return sorted(set(k))
 
     # -------------------------------------------------------------------------------
@@ -329,7 +333,9 @@ class Gen:
         d = self.dw
         if d and d.get('unit_meta'):
             offs = [m['off'] for m in d['unit_meta']][:3]
-            first.append(['lineprog_seq', offs])
+            if 'lineprog_seq' in self.kinds:
+                first.append(['lineprog_seq', offs])
+            first.append(['x2', ['lineprog_after', offs[0]]])
             first.append(['die_iter', offs[0], None])
             first.append(['cu_iter', None])
             if 'loc_iter' in self.kinds:
@@ -572,6 +578,12 @@ class Gen:
             return [kind, _take(r, len(d['unit_meta']))]
         if kind == 'cu_at':
             return [kind, r.choice(d['unit_meta'])['off']]
+        if kind == 'cu_at_stale':
+            m = r.choice(d['unit_meta'])
+            starts = set(u['off'] for u in d['unit_meta'])
+            size = d['sec_sizes'].get('debug_info_sec') or (m['off'] + m['size'])
+            x = r.choice([m['off'] + 1, m['off'] + 4, m['off'] + m['size'] // 2, m['off'] + m['size'] - 1, m['die_off'], size - 3, size - 1])
+            return [kind, x] if x not in starts and x >= 0 else None
         if kind == 'cu_containing':
             m = r.choice(d['unit_meta'])
             size = d['sec_sizes'].get('debug_info_sec') or (m['off'] + m['size'])
@@ -638,6 +650,8 @@ class Gen:
                 return None
             n = d['sec_sizes']['debug_addr_sec'] // 4
             return [kind, m['off'], r.choice([0, 1, r.randrange(n + 1), r.randrange(n + 1), n + 3])]
+        if kind == 'lineprog_after':
+            return [kind, r.choice(d['unit_meta'])['off']]
         if kind == 'lineprog_seq':
             offs = [m['off'] for m in d['unit_meta']]
             return [kind, [r.choice(offs) for _ in range(r.randrange(1, 4))]]
